@@ -591,6 +591,7 @@ def exec_for(eng, s, fr):
         except BreakSig:
             if sink is not None:
                 raise Unsupported("break inside a yielding invariant-cut loop")
+            eng.models.iteration_finished(eng, seqv, eng.snum(k.z + 1, "int"))
             return
         if sink is not None:
             for lab, fn in spec["yields"]:
@@ -623,5 +624,6 @@ def exec_for(eng, s, fr):
         sink.items.append(LoopYields(o, n, [lab for lab, _ in spec["yields"]]))
     if isinstance(seqv, Iter):
         seqv.consumed = True
+    eng.models.iteration_finished(eng, seqv, n)
     at_exit(eng, spec, fr, old_vars, entry_vars, pre)
     eng.exec_block(s.orelse, fr)
